@@ -242,6 +242,23 @@ def shrink_case(prop, case, still_fails, budget=200):
     return cur
 
 
+def shorten(v, limit=400, items=40):
+    """Evidence samples are illustrations, not replays: long octet strings, texts and lists are abbreviated (with
+    their true size) so that an evidence file stays a few hundred kilobytes at most."""
+    if isinstance(v, dict):
+        if set(v) == {"x"} and isinstance(v["x"], str) and len(v["x"]) > limit:
+            return {"x": v["x"][:limit], "abbreviated_from_octets": len(v["x"]) // 2}
+        return {k: shorten(x, limit, items) for k, x in v.items()}
+    if isinstance(v, list):
+        out = [shorten(x, limit, items) for x in v[:items]]
+        if len(v) > items:
+            out.append(f"... {len(v) - items} more items")
+        return out
+    if isinstance(v, str) and len(v) > limit:
+        return v[:limit] + f"... ({len(v)} characters)"
+    return v
+
+
 def failing_obligation(b) -> str:
     """Name the Coq statement at which the build stopped (last 'File "./X.v", line N' of the log)."""
     import re
@@ -428,7 +445,7 @@ def run_check(prop: Prop, tier: str, seed: int) -> int:
     samples = []
     step = max(1, len(cases) // 5)
     for i in range(0, len(cases), step):
-        samples.append({"case": canon(cases[i]), "implementation": impl[i], "model": model_ans[i]})
+        samples.append(shorten({"case": canon(cases[i]), "implementation": impl[i], "model": model_ans[i]}))
         if len(samples) >= 5:
             break
     for t in b.theorems[:3]:
